@@ -73,7 +73,7 @@ CHECKS = {
             "pad_integral model validated against std's integer formatting in the oracle's unit tests.",
             "5 C16"),
     "C17": ("proptest generation of decimals and JSON number texts (+ libFuzzer in the thorough tier); round-trip and differential against the reference evaluator; recording serializer",
-            "Exploration: decimals of 1..400 digits with scales to +-150000 (+-1), each Display notation; JSON numbers of 1..2000 digits with fractions/exponents and malformed variants; exponents at the scale limit, at m*2^32 + d and beyond i64; every number also read through a serde_json::Value; serde value deserializers of every integer/float width; json_num / json_num_option in a derived struct incl. null, through text and through Value; documents and tokens that are not numbers through every route; no panic on either build flavour. One open known finding (plain BigDecimal from a Value number goes through f64, see known-findings.txt) is recognised by an oracle-computed signature and reported as KNOWN-FINDING.",
+            "Exploration: decimals of 1..400 digits with scales to +-150000 (+-1), each Display notation; JSON numbers of 1..2000 digits with fractions/exponents and malformed variants; exponents at the scale limit, at m*2^32 + d and beyond i64, exponent digits zero-padded to lengths around 20 and 39 and to 300; every number also read through a serde_json::Value; serde value deserializers of every integer/float width; json_num / json_num_option in a derived struct incl. null, through text and through Value; documents and tokens that are not numbers through every route; no panic on either build flavour. One open known finding (plain BigDecimal from a Value number goes through f64, see known-findings.txt) is recognised by an oracle-computed signature and reported as KNOWN-FINDING.",
             "Uses serde_json 1.0.117 (arbitrary_precision) from the repository's lock file.",
             "5 C17"),
     "C18": ("exhaustive enumeration (k = 0..5000 powers of ten, all 5-digit values x scales) + proptest generation; string-built expectations",
